@@ -206,6 +206,60 @@ def Cur.skip (c : Cur) (k : Nat) : Cur :=
   | .inRange r => if k ≤ r.length then .inRange (r.drop k) else .past (k - r.length - 1)
   | .past o => .past (o + k)
 
+/-! Compiler-only replacements (`@[csimp]`, i.e. *proved* equal) for the two cursor primitives, whose definitions
+compute `r.length` on every call - quadratic on a 1 MiB frame. The theorems speak about the plain definitions. -/
+
+def lenGe {α : Type} : List α → Nat → Bool
+  | _, 0 => true
+  | [], _+1 => false
+  | _ :: r, n+1 => lenGe r n
+
+theorem lenGe_iff {α : Type} : ∀ (l : List α) (n : Nat), lenGe l n = true ↔ n ≤ l.length
+  | _, 0 => by simp [lenGe]
+  | [], n+1 => by simp [lenGe]
+  | _ :: r, n+1 => by simp [lenGe, lenGe_iff r n]
+
+def Cur.readFast (c : Cur) (n : Nat) : Out (Bytes × Cur) :=
+  if n = 0 then .ok ([], c) else
+  match c with
+  | .inRange r => if lenGe r n then .ok (r.take n, .inRange (r.drop n)) else .err .eof
+  | .past _ => .err .eof
+
+@[csimp] theorem Cur.read_eq_readFast : @Cur.read = @Cur.readFast := by
+  funext c n
+  unfold Cur.read Cur.readFast
+  cases c with
+  | inRange r =>
+    by_cases h : n ≤ r.length
+    · simp [h, (lenGe_iff r n).mpr h]
+    · have : lenGe r n = false := by
+        cases hh : lenGe r n with
+        | false => rfl
+        | true => exact absurd ((lenGe_iff r n).mp hh) h
+      simp [h, this]
+  | past o => rfl
+
+def Cur.skipFast (c : Cur) (k : Nat) : Cur :=
+  if k = 0 then c else
+  match c with
+  | .inRange r => if lenGe r k then .inRange (r.drop k) else .past (k - r.length - 1)
+  | .past o => .past (o + k)
+
+@[csimp] theorem Cur.skip_eq_skipFast : @Cur.skip = @Cur.skipFast := by
+  funext c k
+  unfold Cur.skip Cur.skipFast
+  cases c with
+  | inRange r =>
+    by_cases h : k ≤ r.length
+    · simp [h, (lenGe_iff r k).mpr h]
+    · have : lenGe r k = false := by
+        cases hh : lenGe r k with
+        | false => rfl
+        | true => exact absurd ((lenGe_iff r k).mp hh) h
+      simp [h, this]
+  | past o => rfl
+
+
 inductive Dir | shorter | longer
 deriving DecidableEq, Repr
 
